@@ -28,9 +28,22 @@
 //! surviving record was published) and keeps the entry-count check strict on top of it; a
 //! deterministic minimal history runs for 1 seed in 16 (`scenario_claim_leak`).
 //!
-//! No model lines: the `c02x ...` op lines only document the history (props entry "model":
-//! False); the independent oracle (p1::Oracle for key-value columns, c10::Forest for trees,
-//! one snapshot per accepted transaction) is the judge.
+//! Two judges.  (1) The independent oracle (p1::Oracle for key-value columns, c10::Forest for
+//! trees, one snapshot per accepted transaction).  (2) The Lean crash model: every action is
+//! emitted as a `c02x ...` op line with the observed answer and replayed by the compiled driver
+//! (lean/Pdb/Model/C02xDriver.lean: P1 pipeline state for the key-value columns, one
+//! `MultiTreeCrash.CState` per tree column, driven by `cstep` / `crashRecover`):
+//!   init <kinds> | commit <ops> (trees in the c10 encoding: new nodes in pre-order, existing
+//!   nodes by path) | process | flush | enactfile | enactall | clean | reindex | reopen | stages
+//!   (the harness mirror of the stage positions) | crash <m> kept=<complete unsynced records in
+//!   the image> [inprocess] (the prefix the implementation recovered to; the model answers
+//!   whether that prefix is allowed and recovers to it) | get / size <col> <key> | tree <col>
+//!   <key> (whole tree, structurally) | count <col> <slots known to be leaked, F19>.
+//! After every recovery and clean reopen the complete observable state (every key, every tree,
+//! every entry count) is emitted as op lines, so the model checks the recovered state on its
+//! own.  What the model cannot predict stays a comment: the fault positions, the errors of
+//! faulted opens, reads of ref-counted hash keys while commits are queued, the entry count of a
+//! column that leaked a multipart slot.
 use crate::c10::{to_real, Forest, GNode, GRef};
 use crate::p1::{self, Kind, Op};
 use crate::util::*;
@@ -570,6 +583,56 @@ fn tx_line(tx: &Tx, w: &World) -> String {
 	s
 }
 
+type Paths = std::collections::HashMap<usize, (Vec<u8>, Vec<usize>)>;
+
+/// c10 encoding of a generated tree: `n<k>:<data>` new node with k children (pre-order),
+/// `@<key>/<i>/<j>..` existing node by a path from a live root
+fn model_tokens(g: &GNode, paths: &Paths, out: &mut Vec<String>) {
+	out.push(format!("n{}:{}", g.children.len(), g.data));
+	for c in &g.children {
+		match c {
+			GRef::New(n) => model_tokens(n, paths, out),
+			GRef::Existing(id) => {
+				let (k, p) = &paths[id];
+				let mut s = format!("@{}", hex(k));
+				for i in p {
+					s.push_str(&format!("/{}", i));
+				}
+				out.push(s);
+			},
+		}
+	}
+}
+
+/// the model op line of a transaction (the forests are those BEFORE the transaction)
+fn model_tx_line(tx: &Tx, w: &World) -> String {
+	let mut s = String::from("c02x commit");
+	let mut paths: BTreeMap<u8, Paths> = Default::default();
+	for (c, op) in tx {
+		match op {
+			TOp::Kv(Op::Set(k, v)) => s.push_str(&format!(" {}:set:{}:{}", c, hex(k), v)),
+			TOp::Kv(Op::Del(k)) => s.push_str(&format!(" {}:del:{}", c, hex(k))),
+			TOp::Kv(Op::Ref(k)) => s.push_str(&format!(" {}:ref:{}", c, hex(k))),
+			TOp::Insert(k, g) => {
+				let p = paths.entry(*c).or_insert_with(|| w.forests[*c as usize].as_ref().unwrap().paths());
+				let mut toks = vec![];
+				model_tokens(g, p, &mut toks);
+				s.push_str(&format!(" {}:insert:{}:{} {}", c, hex(k), toks.len(), toks.join(" ")));
+			},
+			TOp::RefTree(k) => s.push_str(&format!(" {}:reftree:{}", c, hex(k))),
+			TOp::DerefTree(k) => s.push_str(&format!(" {}:dereftree:{}", c, hex(k))),
+		}
+	}
+	s
+}
+
+fn enact_res(r: &Result<usize, parity_db::Error>) -> String {
+	match r {
+		Ok(k) => format!("ok records={}", k),
+		Err(e) => format!("err:{}", err_kind(e)),
+	}
+}
+
 fn res(r: &Result<(), parity_db::Error>) -> String {
 	match r {
 		Ok(()) => "ok".into(),
@@ -810,6 +873,72 @@ fn hidden_equal(cfg: &Cfg, a: &World, b: &World) -> bool {
 }
 
 // ------------------------------------------------------------------------------------------
+// Model lines of observations (no oracle involved: the Lean model is the judge of these).
+
+/// `c02x get` + `c02x size` of one key-value key; `exact` = the model predicts the read (not a
+/// ref-counted key while commits are queued)
+fn emit_get(db: &Db, c: usize, k: &[u8], exact: bool, vals: &Values, t: &mut Trace) {
+	let obs = match db.get(c as u8, k) {
+		Ok(Some(v)) => format!("some {}", vals.render(&v)),
+		Ok(None) => "none".to_string(),
+		Err(e) => format!("err:{}", err_kind(&e)),
+	};
+	let sobs = match db.get_size(c as u8, k) {
+		Ok(Some(n)) => format!("some {}", n),
+		Ok(None) => "none".to_string(),
+		Err(e) => format!("err:{}", err_kind(&e)),
+	};
+	if exact {
+		t.op(&format!("c02x get {} {}", c, hex(k)), &obs);
+		t.op(&format!("c02x size {} {}", c, hex(k)), &sobs);
+	} else {
+		t.comment(&format!("rc-read col={} key={} -> {} (size {})", c, hex(k), obs, sobs));
+	}
+}
+
+/// `c02x tree`: the whole tree as readable now, rendered structurally
+fn emit_tree(db: &Db, c: usize, k: &[u8], vals: &Values, t: &mut Trace) {
+	let obs = match with_reader(db, c as u8, k, |rd| rd.render(k, vals)).and_then(|x| x) {
+		Ok(o) => o,
+		Err(e) => format!("read-error {}", e),
+	};
+	t.op(&format!("c02x tree {} {}", c, hex(k)), &obs);
+}
+
+/// `c02x count <col> <leaked>`: `leaked` = slots known to be leaked by earlier recoveries (F19);
+/// a column that leaked a multipart slot has no predictable count (comment)
+fn emit_count(db: &Db, c: usize, bias: u64, skip: bool, t: &mut Trace) {
+	let obs = match db.get_num_column_value_entries(c as u8) {
+		Ok(n) => n.to_string(),
+		Err(e) => format!("err:{}", err_kind(&e)),
+	};
+	if skip {
+		t.comment(&format!("count col={} -> {} (a multipart slot was leaked, F19: unpredictable)", c, obs));
+	} else {
+		t.op(&format!("c02x count {} {}", c, bias), &obs);
+	}
+}
+
+/// the complete observable state of a handle with an empty queue
+fn emit_state(db: &Db, cfg: &Cfg, keys: &Keys, vals: &Values, bias: &[u64], skip: &[bool], t: &mut Trace, ctr: &mut Counters) {
+	for (c, kind) in cfg.cols.iter().enumerate() {
+		if kind.is_tree() {
+			for k in &keys.tree[c] {
+				emit_tree(db, c, k, vals, t);
+			}
+			emit_count(db, c, bias[c], skip[c], t);
+			ctr.add("model.state.trees", keys.tree[c].len() as u64);
+			ctr.inc("model.state.counts");
+		} else {
+			for k in &keys.kv[c] {
+				emit_get(db, c, k, true, vals, t);
+			}
+			ctr.add("model.state.kv_reads", keys.kv[c].len() as u64);
+		}
+	}
+}
+
+// ------------------------------------------------------------------------------------------
 
 struct Case<'a> {
 	seed: u64,
@@ -838,6 +967,9 @@ struct Case<'a> {
 	cap_at: BTreeMap<usize, usize>,
 	bias: Vec<u64>,
 	mp_leak: Vec<bool>,
+	/// F19: addresses of the node slots predicted to be leaked, per column (the allowed
+	/// orphans of the Lean forest checker `t2rc`)
+	leaked: Vec<Vec<u64>>,
 	findings: usize,
 }
 
@@ -953,7 +1085,8 @@ impl<'a> Case<'a> {
 	}
 
 	fn commit(&mut self, tx: &Tx) {
-		let line = tx_line(tx, &self.world);
+		self.t.comment(&tx_line(tx, &self.world)[5..]);
+		let line = model_tx_line(tx, &self.world);
 		let mut real: Vec<(u8, Operation<Vec<u8>, Vec<u8>>)> = vec![];
 		for (c, op) in tx {
 			let o = match op {
@@ -1028,6 +1161,26 @@ impl<'a> Case<'a> {
 			}
 		}
 		self.states.push(self.world.snapshot());
+		// model lines: read back what the transaction touched, at the commit-overlay stage
+		let mut seen: std::collections::BTreeSet<(u8, Vec<u8>)> = Default::default();
+		for (c, op) in tx {
+			let key = match op {
+				TOp::Kv(o) => o.key().clone(),
+				TOp::Insert(k, _) | TOp::RefTree(k) | TOp::DerefTree(k) => k.clone(),
+			};
+			if !seen.insert((*c, key.clone())) {
+				continue
+			}
+			let kind = self.cfg.cols[*c as usize];
+			if kind.is_tree() {
+				emit_tree(self.sut.db(), *c as usize, &key, &self.vals, self.t);
+				self.ctr.inc("model.readback.tree");
+			} else {
+				// queued > 0 here: reads of ref-counted keys are not predicted (as in p1)
+				emit_get(self.sut.db(), *c as usize, &key, kind != CK::RcHash, &self.vals, self.t);
+				self.ctr.inc("model.readback.kv");
+			}
+		}
 	}
 
 	/// reads at whatever stage the pipeline is in
@@ -1037,6 +1190,7 @@ impl<'a> Case<'a> {
 			let kind = self.cfg.cols[c];
 			if kind.is_tree() {
 				let k = rng.pick(&self.keys.tree[c]).clone();
+				emit_tree(self.sut.db(), c, &k, &self.vals, self.t);
 				let obs = with_reader(self.sut.db(), c as u8, &k, |rd| rd.render(&k, &self.vals)).and_then(|x| x);
 				self.ctr.inc("op.read_tree");
 				let f = self.world.forests[c].as_ref().unwrap();
@@ -1059,6 +1213,7 @@ impl<'a> Case<'a> {
 				self.ctr.inc("op.read_kv");
 				let exp = self.world.kv.cols[c].get(&k);
 				let exact = kind != CK::RcHash || self.sut.queued == 0;
+				emit_get(self.sut.db(), c, &k, exact, &self.vals, self.t);
 				match got {
 					Err(e) => self.fail(&format!("get col={} failed: {:?}", c, e)),
 					Ok(g) =>
@@ -1124,7 +1279,8 @@ impl<'a> Case<'a> {
 		let m = synced + surv;
 		let committed = self.states.len() - 1;
 		let stage = format!("queued={} logged={} flushed={} enacted={}", self.sut.queued, self.sut.logged, self.sut.flushed, self.sut.n_enacted);
-		self.t.op(&format!("c02x crash boundary cut={:?} {}", kept, stage), &format!("expect prefix {} of {}", m, committed));
+		self.t.comment(&format!("crash boundary cut={:?} {} expect prefix {} of {}", kept, stage, m, committed));
+		self.t.op("c02x stages", &stage);
 		self.ctr.inc("crash.a.boundary");
 		self.ctr.inc(if kept.is_empty() { "crash.a.no_cut" } else { "crash.a.cut_tail" });
 		self.ctr.add("crash.a.unsynced_records_kept", surv as u64);
@@ -1136,7 +1292,7 @@ impl<'a> Case<'a> {
 		}
 		let _ = std::fs::remove_dir_all(&old);
 		self.sut.dir = img;
-		self.recover(rng, m, m, synced)
+		self.recover(rng, m, m, synced, surv)
 	}
 
 	/// (b) crash inside a step: the fault injector stops it at its i-th file operation
@@ -1148,7 +1304,13 @@ impl<'a> Case<'a> {
 			70..=84 => "flush",
 			_ => "clean",
 		};
-		if want == "clean" && self.sut.dirty == 0 {
+		// (clean: two enacted log files in the cleanup queue when possible, so that the instants
+		// between the reclaim of one file and the next exist)
+		let want_dirty = if want == "clean" && rng.chance(2, 3) { 2 } else { 1 };
+		for _ in 0..want_dirty {
+			if !(want == "clean" && self.sut.dirty < want_dirty) {
+				break
+			}
 			if self.sut.unread_files == 0 {
 				if self.sut.logged == self.sut.flushed && self.sut.queued > 0 {
 					self.note_process();
@@ -1160,7 +1322,7 @@ impl<'a> Case<'a> {
 			}
 			if self.sut.unread_files > 0 {
 				let r = self.sut.enact_file();
-				self.t.op("c02x enactfile", &res(&r.map(|_| ())));
+				self.t.op("c02x enactfile", &enact_res(&r));
 			}
 		}
 		if want == "enact" && self.sut.unread_files == 0 {
@@ -1205,7 +1367,28 @@ impl<'a> Case<'a> {
 			"process" => *rng.pick(&[0usize, 1, 2, 3, 4, 5, 6, 8, 10, 12, 16, 20, 25, 30, 40, 60]),
 			"enact" => *rng.pick(&[0usize, 1, 2, 3, 4, 5, 6, 8, 10, 12, 16, 20, 25, 30, 40, 60, 90, 140]),
 			"flush" => *rng.pick(&[0usize, 0, 1, 1, 1, 2]),
-			_ => *rng.pick(&[0usize, 0, 1, 1, 2, 3, 4, 6, 9, 14]),
+			_ => {
+				// clean_logs flushes every table-ish file (one file operation each), then reclaims the
+				// dirty log files one after the other (rewind, truncate): spread the fault over all of them
+				let nfiles = std::fs::read_dir(&self.sut.dir)
+					.map(|d| {
+						d.filter_map(|e| e.ok())
+							.filter(|e| {
+								let n = e.file_name().to_string_lossy().to_string();
+								n.starts_with("table_") || n.starts_with("index_") || n.starts_with("refcount_")
+							})
+							.count()
+					})
+					.unwrap_or(0);
+				if rng.chance(1, 3) {
+					*rng.pick(&[0usize, 0, 1, 1, 2, 3, 4, 6, 9, 14])
+				} else if rng.chance(1, 2) {
+					// around the reclaim phase
+					nfiles.saturating_sub(1) + rng.below(3 * self.sut.dirty as u64 + 3) as usize
+				} else {
+					rng.below((nfiles + 3 * self.sut.dirty + 2) as u64) as usize
+				}
+			},
 		};
 		if step == "process" {
 			self.note_process();
@@ -1232,15 +1415,28 @@ impl<'a> Case<'a> {
 				// fewer file operations than the index: the step completed; mirror it
 				self.ctr.inc(&format!("fault.not_reached.{}", step));
 				self.ctr.inc(&format!("fault.not_reached_at.{}.{:03}", step, idx));
-				self.t.op(&format!("c02x {} (fault index {} not reached)", step, idx), "ok");
+				self.t.comment(&format!("{} under the fault injector: fault index {} not reached, the step completed", step, idx));
 				match step {
-					"process" => self.sut.after_process(),
-					"flush" => self.sut.after_flush(),
-					"enact" => {
-						self.sut.after_enact_file();
+					"process" => {
+						self.sut.after_process();
+						self.t.op("c02x process", "ok");
 					},
-					"clean" => self.sut.after_clean(),
-					_ => self.sut.note_appended(false),
+					"flush" => {
+						self.sut.after_flush();
+						self.t.op("c02x flush", "ok");
+					},
+					"enact" => {
+						let k = self.sut.after_enact_file();
+						self.t.op("c02x enactfile", &format!("ok records={}", k));
+					},
+					"clean" => {
+						self.sut.after_clean();
+						self.t.op("c02x clean", "ok");
+					},
+					_ => {
+						self.sut.note_appended(false);
+						self.t.op("c02x reindex", "ok");
+					},
 				}
 				true
 			},
@@ -1265,10 +1461,11 @@ impl<'a> Case<'a> {
 				let hi = lo + if step == "process" && self.sut.queued > 0 && all { 1 } else { 0 };
 				let committed = self.states.len() - 1;
 				let stage = format!("queued={} logged={} flushed={} enacted={}", self.sut.queued, self.sut.logged, self.sut.flushed, self.sut.n_enacted);
-				self.t.op(
-					&format!("c02x crash inside {} at file operation {} cut={:?} {}", step, idx, kept, stage),
-					&format!("expect prefix in [{}, {}] of {}", lo, hi, committed),
-				);
+				self.t.comment(&format!(
+					"crash inside {} at file operation {} cut={:?} {} expect prefix in [{}, {}] of {}",
+					step, idx, kept, stage, lo, hi, committed
+				));
+				self.t.op("c02x stages", &stage);
 				let old = self.sut.dir.clone();
 				if let Some(db) = self.sut.db.take() {
 					db.verif_store_err(Err(e));
@@ -1280,7 +1477,7 @@ impl<'a> Case<'a> {
 				}
 				let _ = std::fs::remove_dir_all(&old);
 				self.sut.dir = img;
-				self.recover(rng, lo, hi, synced)
+				self.recover(rng, lo, hi, synced, surv)
 			},
 		}
 	}
@@ -1293,7 +1490,7 @@ impl<'a> Case<'a> {
 
 	/// Recovery of the image in `sut.dir`: crashes during recovery, clean open, identification
 	/// of the prefix in [lo, hi], full verification, continuation.
-	fn recover(&mut self, rng: &mut Rng, lo: usize, hi: usize, synced: usize) -> bool {
+	fn recover(&mut self, rng: &mut Rng, lo: usize, hi: usize, synced: usize, surv: usize) -> bool {
 		self.crashes += 1;
 		let opts = self.cfg.options(&self.sut.dir);
 		let pending = self.has_pending_logs();
@@ -1308,7 +1505,7 @@ impl<'a> Case<'a> {
 			match r {
 				Ok(Ok(db)) => {
 					self.ctr.inc("recover.fault_not_reached");
-					self.t.op(&format!("c02x open with fault at file operation {}", j), "ok (not reached)");
+					self.t.comment(&format!("open with fault at file operation {}: ok (not reached)", j));
 					// a clean open and close: everything is replayed and enacted
 					let r = std::panic::catch_unwind(std::panic::AssertUnwindSafe(move || drop(db)));
 					if r.is_err() {
@@ -1320,13 +1517,13 @@ impl<'a> Case<'a> {
 					self.ctr.inc("recover.crash_during_recovery");
 					self.ctr.inc(&format!("recover.fault_index.{:03}", j));
 					self.ctr.inc(&format!("recover.fault_err.{}", err_kind(&e)));
-					self.t.op(&format!("c02x open with fault at file operation {}", j), &format!("err:{}", err_kind(&e)));
+					self.t.comment(&format!("open with fault at file operation {}: err:{}", j, err_kind(&e)));
 				},
 				Err(_) => {
 					// a panic is a process stop as well; what counts is the next open
 					self.ctr.inc("recover.crash_during_recovery");
 					self.ctr.inc("recover.fault_panic");
-					self.t.op(&format!("c02x open with fault at file operation {}", j), "panic");
+					self.t.comment(&format!("open with fault at file operation {}: panic", j));
 				},
 			}
 		}
@@ -1343,6 +1540,8 @@ impl<'a> Case<'a> {
 			},
 		};
 		self.sut.db = Some(db);
+		// the interrupted step was publishing a record that may be complete in the image
+		let inproc = if hi > lo { " inprocess" } else { "" };
 		let hi = std::cmp::min(hi, self.states.len() - 1);
 		if lo > hi {
 			self.fail(&format!("harness mirror inconsistent: lo={} hi={} states={}", lo, hi, self.states.len()));
@@ -1361,7 +1560,10 @@ impl<'a> Case<'a> {
 		}
 		let committed = self.states.len() - 1;
 		if found.is_empty() {
-			self.t.op("c02x recovered", "not-a-prefix");
+			// the model judges on its own: it recovers to the prefix the record boundaries imply
+			// and is compared with every read of the recovered handle
+			self.t.comment("recovered: not-a-prefix (oracle)");
+			self.t.op(&format!("c02x crash {} kept={}{}", lo, surv, inproc), "ok");
 			self.fail(&format!(
 				"after crash recovery the database is no prefix in [{}, {}] of the {} committed transactions (synced {}): {}",
 				lo,
@@ -1370,6 +1572,10 @@ impl<'a> Case<'a> {
 				synced,
 				why.join(" || ")
 			));
+			{
+				let (bias, skip) = (self.bias.clone(), self.mp_leak.clone());
+				emit_state(self.sut.db.as_ref().unwrap(), &self.cfg, &self.keys, &self.vals, &bias, &skip, self.t, self.ctr);
+			}
 			return false
 		}
 		let m = found[0];
@@ -1396,8 +1602,18 @@ impl<'a> Case<'a> {
 		}
 		self.bias = bias;
 		self.mp_leak = skip;
+		self.leaked = self.predict_leak_addrs(m);
 		self.cap_at.clear();
-		self.t.op("c02x recovered", &format!("prefix {} of {} (synced {})", m, committed, synced));
+		self.t.comment(&format!("recovered: prefix {} of {} (synced {})", m, committed, synced));
+		self.t.op(&format!("c02x crash {} kept={}{}", m, surv, inproc), "ok");
+		self.ctr.inc("model.crash");
+		if !inproc.is_empty() {
+			self.ctr.inc(if m > lo { "model.crash.inprocess_record_complete" } else { "model.crash.inprocess_record_lost" });
+		}
+		{
+			let (bias, skip) = (self.bias.clone(), self.mp_leak.clone());
+			emit_state(self.sut.db.as_ref().unwrap(), &self.cfg, &self.keys, &self.vals, &bias, &skip, self.t, self.ctr);
+		}
 		self.ctr.inc("recover.ok");
 		let lost = committed - m;
 		self.lost_total += lost;
@@ -1421,7 +1637,71 @@ impl<'a> Case<'a> {
 		self.world = self.states[m].snapshot();
 		self.states.truncate(m + 1);
 		self.sut.reset_mirror(m);
-		true
+		self.t2rc_all("recovery");
+		self.ok
+	}
+
+	/// F19, by address: the node slots claimed by the transactions in (m, cap] (see
+	/// `predict_leak`), added to those leaked by earlier recoveries.
+	fn predict_leak_addrs(&self, m: usize) -> Vec<Vec<u64>> {
+		let mut leaked = self.leaked.clone();
+		let cap = match self.cap_at.get(&m) {
+			Some(c) => std::cmp::min(*c, self.states.len() - 1),
+			None => return leaked,
+		};
+		for (c, kind) in self.cfg.cols.iter().enumerate() {
+			if !kind.is_tree() {
+				continue
+			}
+			for q in m + 1..=cap {
+				let (prev, cur) = (self.states[q - 1].forests[c].as_ref().unwrap(), self.states[q].forests[c].as_ref().unwrap());
+				for id in prev.next_id..cur.next_id {
+					if let Some(a) = cur.nodes.get(&id).and_then(|n| n.addr) {
+						if !leaked[c].contains(&a) {
+							leaked[c].push(a);
+						}
+					}
+				}
+			}
+		}
+		leaked
+	}
+
+	/// T2 for the node forests (Lean checker `t2rc`, Pdb/Model/DumpCheckRc.lean): after a recovery
+	/// or a reopen every log is enacted; dump every tree column, one op line per column with the
+	/// expected answer `ok` (the predicted leaked slots of finding F19 are passed as allowed
+	/// orphans: any OTHER unreachable or undecodable slot makes the checker answer `bad:`), and
+	/// compare the same dump with the forest oracle of the recovered prefix.
+	fn t2rc_all(&mut self, at: &str) {
+		let cols = self.cfg.cols.clone();
+		for (c, kind) in cols.iter().enumerate() {
+			if !kind.is_tree() {
+				continue
+			}
+			let d = match self.sut.db().verif_multitree_dump(c as u8) {
+				Ok(Some(d)) => d,
+				Ok(None) => continue,
+				Err(e) => {
+					self.fail(&format!("verif_multitree_dump col={} failed: {:?}", c, e));
+					continue
+				},
+			};
+			let (line, st) = crate::c10::t2rc_line(&d, &self.leaked[c]);
+			self.t.op(&line, "ok");
+			crate::c10::t2rc_count(self.ctr, at, &d, &st, self.leaked[c].len());
+			if self.ended_ambiguous {
+				// the oracle may differ from the database in a root count (see above)
+				continue
+			}
+			let r = match self.world.forests[c].as_ref() {
+				Some(f) => crate::c10::dump_matches_forest(self.sut.db(), c as u8, &d, f, kind.counting(), *kind == CK::MtRc, &self.leaked[c]),
+				None => Ok(()),
+			};
+			match r {
+				Ok(()) => self.ctr.inc("t2rc.oracle_forest_equal"),
+				Err(e) => self.fail(&format!("structural dump ({}) of col={} ({}) differs from the oracle forest: {}", at, c, kind.name(), e)),
+			}
+		}
 	}
 
 	/// F19: the table header logged with the record of transaction m carries every slot claimed
@@ -1499,11 +1779,18 @@ impl<'a> Case<'a> {
 		let mut ctr = std::mem::replace(self.ctr, Counters::new());
 		let r = verify_full(self.sut.db(), &self.cfg, &self.keys, &self.world, &self.vals, &mut ctr, true, &self.bias, &self.mp_leak);
 		*self.ctr = ctr;
-		if let Err(e) = r {
+		if let Err(e) = &r {
 			self.fail(&format!("after a clean reopen: {}", e));
-			return false
 		}
-		true
+		// the model judges the reopened state on its own (after the oracle has reported)
+		{
+			let (bias, skip) = (self.bias.clone(), self.mp_leak.clone());
+			emit_state(self.sut.db.as_ref().unwrap(), &self.cfg, &self.keys, &self.vals, &bias, &skip, self.t, self.ctr);
+		}
+		if r.is_ok() {
+			self.t2rc_all("reopen");
+		}
+		r.is_ok() && self.ok
 	}
 }
 
@@ -1556,7 +1843,7 @@ fn run_case(seed: u64, thorough: bool, root: &Path, t: &mut Trace, ctr: &mut Cou
 	let mut rng = Rng::new(seed);
 	let cfg = gen_cfg(&mut rng);
 	t.begin_case(&format!("seed={} cfg={}", seed, cfg.describe()));
-	t.op(&format!("c02x init {}", cfg.describe()), "ok");
+	t.op(&format!("c02x init {}", cfg.describe().replace(',', " ")), "ok");
 	let mut mix: Vec<&str> = cfg.cols.iter().map(|c| c.name()).collect();
 	mix.sort();
 	ctr.inc(&format!("mix.{}", mix.join("+")));
@@ -1599,6 +1886,7 @@ fn run_case(seed: u64, thorough: bool, root: &Path, t: &mut Trace, ctr: &mut Cou
 		cap_at: Default::default(),
 		bias: vec![0; ncols_total],
 		mp_leak: vec![false; ncols_total],
+		leaked: vec![vec![]; ncols_total],
 		findings: 0,
 	};
 	let nact = rng.range(14, if thorough { 70 } else { 42 }) as usize;
@@ -1629,10 +1917,7 @@ fn run_case(seed: u64, thorough: bool, root: &Path, t: &mut Trace, ctr: &mut Cou
 			}
 		} else if a < 64 {
 			let r = c.sut.enact_file();
-			c.t.op("c02x enactfile", &match &r {
-				Ok(k) => format!("ok records={}", k),
-				Err(e) => format!("err:{}", err_kind(e)),
-			});
+			c.t.op("c02x enactfile", &enact_res(&r));
 			c.ctr.inc("op.enactfile");
 			if let Err(e) = r {
 				c.fail(&format!("enact_logs failed: {:?}", e));
@@ -1673,7 +1958,7 @@ fn run_case(seed: u64, thorough: bool, root: &Path, t: &mut Trace, ctr: &mut Cou
 				c.t.op("c02x flush", &res(&r));
 				if round == 1 && c.ok {
 					let r = c.sut.enact_file();
-					c.t.op("c02x enactfile", &res(&r.map(|_| ())));
+					c.t.op("c02x enactfile", &enact_res(&r));
 					let r = c.sut.clean();
 					c.t.op("c02x clean", &res(&r));
 				}
@@ -1748,6 +2033,46 @@ fn run_case(seed: u64, thorough: bool, root: &Path, t: &mut Trace, ctr: &mut Cou
 	ok
 }
 
+/// scenario data is literal text: the token of `root-1` is `v6_root-1`
+fn raw_tok(d: &[u8]) -> String {
+	format!("v{}_{}", d.len(), String::from_utf8_lossy(d))
+}
+
+fn render_raw_node(rd: &Reader, addr: u64, out: &mut String, depth: usize) -> Result<(), String> {
+	if depth > 16 {
+		out.push('!');
+		return Ok(())
+	}
+	match rd.node(addr)? {
+		None => out.push('?'),
+		Some((d, cs)) => {
+			out.push('(');
+			out.push_str(&raw_tok(&d));
+			for c in cs {
+				out.push(' ');
+				render_raw_node(rd, c, out, depth + 1)?;
+			}
+			out.push(')');
+		},
+	}
+	Ok(())
+}
+
+fn render_raw(rd: &Reader, key: &[u8]) -> Result<String, String> {
+	match rd.root(key)? {
+		None => Ok("none".into()),
+		Some((d, cs)) => {
+			let mut s = format!("some ({}", raw_tok(&d));
+			for c in cs {
+				s.push(' ');
+				render_raw_node(rd, c, &mut s, 0)?;
+			}
+			s.push(')');
+			Ok(s)
+		},
+	}
+}
+
 /// Deterministic minimal history of finding F19 (1 seed in 16, after the generated case):
 /// one multitree column; tx1 = InsertTree(k1, root -> leaf) and tx2 = InsertTree(k2, root ->
 /// leaf, leaf) are committed, ONE process step publishes the record of tx1 (its table header
@@ -1759,6 +2084,7 @@ fn scenario_claim_leak(seed: u64, root: &Path, t: &mut Trace, ctr: &mut Counters
 	let kind = [CK::MtAppend, CK::MtRc, CK::MtPlain][((seed / 16) % 3) as usize];
 	let cfg = Cfg { cols: vec![kind], comp: vec![CompressionType::NoCompression], salt: [7u8; 32] };
 	t.begin_case(&format!("seed={} scenario=claim-leak cfg={}", seed, cfg.describe()));
+	t.op(&format!("c02x init {}", cfg.describe()), "ok");
 	ctr.inc("scenario.claim_leak");
 	let dir = fresh_dir(root, &format!("c02x-{}-scn", seed));
 	let db = Db::open_or_create(&cfg.options(&dir)).expect("create");
@@ -1767,9 +2093,9 @@ fn scenario_claim_leak(seed: u64, root: &Path, t: &mut Trace, ctr: &mut Counters
 	let t2 = NewNode { data: b"root-2".to_vec(), children: vec![leaf(b"leaf-2a"), leaf(b"leaf-2b")] };
 	let mut ok = true;
 	let r1 = db.commit_changes(vec![(0u8, Operation::InsertTree(b"k1".to_vec(), t1))]);
-	t.op("c02x commit 0:insert:6b31:(root-1,(leaf-1a))", &res(&r1));
+	t.op("c02x commit 0:insert:6b31:2 n1:v6_root-1 n0:v7_leaf-1a", &res(&r1));
 	let r2 = db.commit_changes(vec![(0u8, Operation::InsertTree(b"k2".to_vec(), t2))]);
-	t.op("c02x commit 0:insert:6b32:(root-2,(leaf-2a),(leaf-2b))", &res(&r2));
+	t.op("c02x commit 0:insert:6b32:3 n2:v6_root-2 n0:v7_leaf-2a n0:v7_leaf-2b", &res(&r2));
 	let r3 = db.process_commits();
 	t.op("c02x process", &res(&r3));
 	if r1.is_err() || r2.is_err() || r3.is_err() {
@@ -1779,7 +2105,8 @@ fn scenario_claim_leak(seed: u64, root: &Path, t: &mut Trace, ctr: &mut Counters
 	let img = fresh_dir(root, &format!("c02x-{}-scn-img", seed));
 	copy_dir(&dir, &img);
 	let _ = std::fs::remove_file(img.join("lock"));
-	t.op("c02x crash boundary cut={} queued=1 logged=1 flushed=0 enacted=0", "expect prefix 1 of 2");
+	t.comment("crash boundary cut={} queued=1 logged=1 flushed=0 enacted=0 expect prefix 1 of 2");
+	t.op("c02x stages", "queued=1 logged=1 flushed=0 enacted=0");
 	db.verif_store_err(Err(parity_db::Error::Io(std::io::Error::new(std::io::ErrorKind::Other, "abandoned by harness"))));
 	let _ = std::panic::catch_unwind(std::panic::AssertUnwindSafe(move || drop(db)));
 	let _ = std::fs::remove_dir_all(&dir);
@@ -1788,7 +2115,21 @@ fn scenario_claim_leak(seed: u64, root: &Path, t: &mut Trace, ctr: &mut Counters
 			let tree1 = db.get_root(0, b"k1").ok().flatten().map(|r| (r.0, r.1.len()));
 			let tree2 = db.get_root(0, b"k2").ok().flatten().map(|r| r.0);
 			let n = db.get_num_column_value_entries(0);
-			t.op("c02x recovered", &format!("k1={:?} k2={:?} entries={:?}", tree1.as_ref().map(|x| x.1), tree2.is_some(), n.as_ref().ok()));
+			t.comment(&format!("recovered: k1={:?} k2={:?} entries={:?}", tree1.as_ref().map(|x| x.1), tree2.is_some(), n.as_ref().ok()));
+			// model lines: the one unsynced record is complete in the image; both trees as they
+			// read now; the entry count (+ the two slots of finding F19 when it shows)
+			t.op("c02x crash 1 kept=1", "ok");
+			for k in [&b"k1"[..], &b"k2"[..]] {
+				let obs = with_reader(&db, 0, k, |rd| render_raw(rd, k)).and_then(|x| x).unwrap_or_else(|e| format!("read-error {}", e));
+				t.op(&format!("c02x tree 0 {}", hex(k)), &obs);
+			}
+			t.op(
+				&format!("c02x count 0 {}", if matches!(n, Ok(4)) { 2 } else { 0 }),
+				&match &n {
+					Ok(n) => n.to_string(),
+					Err(e) => format!("err:{}", err_kind(e)),
+				},
+			);
 			if tree1 != Some((b"root-1".to_vec(), 1)) || tree2.is_some() {
 				t.oracle_fail(prop, &format!("scenario claim-leak: recovered state is not the prefix of one transaction: k1={:?} k2 present={}", tree1, tree2.is_some()));
 				ok = false;
